@@ -89,6 +89,7 @@ def gen_history(rf, nscripts, kinds, steps, overlap, sweep=None):
         o = open_obj
         s = cur_script[o]
         c = rf.wchoice([("loop", 10), ("drive", 2), ("sample", 1), ("progress", 1), ("is_complete", 2), ("output", 2),
+                        ("oso", 1),
                         ("observe", 1), ("finalize", 2), ("abandon", 1), ("resetup", 1),
                         ("overlap", 3 if overlap else 0)])
         if c == "loop":
@@ -112,6 +113,9 @@ def gen_history(rf, nscripts, kinds, steps, overlap, sweep=None):
         elif c == "output":
             ops = [["output"], ["output"]] if rf.chance(0.5) else [["output"]]
             new_ep(o, s, ops)
+        elif c == "oso":
+            # fetch, record by hand, fetch again: the second fetch must size its buffers for the new record count
+            new_ep(o, s, [["output"], ["sample"], ["output"]] + ([["sample"], ["output"]] if rf.chance(0.3) else []))
         elif c == "observe":
             new_ep(o, s, [["observe"]])
         elif c == "finalize":
